@@ -4,7 +4,9 @@ import json, glob, re
 rows = []
 for f in sorted(glob.glob('/verif/seeded/*/meta.json')):
     m = json.load(open(f))
-    title = re.sub(r'^C\d\d\s*[/ ]\s*(mutant|m)\s*\d\s*[—-]\s*', '', m['title'])
+    title = re.sub(r'^C\d\d\s*[/ ]\s*(round \d\s*/\s*)?(mutant|m)\s*\d\s*(\(round \d\))?\s*[—-]\s*', '', m['title'])
+    if m.get('superseded'):
+        title += ' (superseded by repair %s: evaluated at its base commit)' % m['superseded']['by_fix']
     conf = m.get('confirmed', {})
     caught = ['%s %s: `%s`' % (c['check'], c['tier'], (c.get('signature') or '')[:70]) for c in m.get('caught_by', []) if c.get('caught')]
     missed = ['%s %s' % (c['check'], c['tier']) for c in m.get('caught_by', []) if not c.get('caught')]
